@@ -136,8 +136,11 @@ class DataFrame:
         if isinstance(self._schema, RelationSchema):
             self._schema.validate(entry)
         new_row = self._row_factory(entry)
+        # size the row before storing it, so a row that cannot be sized is not kept
+        row_size = new_row.nbytes()
         self._rows.append(new_row)
-        self._nbytes += new_row.nbytes()
+        if self._nbytes is not None:
+            self._nbytes += row_size
         self._cursor = None
 
     def head(self, size: int = 5) -> "DataFrame":
